@@ -328,7 +328,13 @@ impl GrammarBuilder {
                 };
 
                 // Inherit meta-data from Rule.
+                // Associativity is a single meta-data written in two ways.
+                let prod_assoc = new_production.meta.contains_key("left")
+                    || new_production.meta.contains_key("right");
                 for (key, data) in &rule.meta {
+                    if (key == "left" || key == "right") && prod_assoc {
+                        continue;
+                    }
                     if !new_production.meta.contains_key(key) {
                         new_production.meta.insert(key.clone(), data.clone());
                     }
